@@ -101,7 +101,7 @@ theorem wigm_every_configuration_fixed (p : Nat) (o : WigmOpts) (s0 : St Int) (h
     ∃ t, wigmCount (fixedArith p) o s0 = some t
       ∧ Inv (fixedArith p) (t.logAct (fixedArith p) "end" "Count Complete" [])
       ∧ LInv (fixedArith p) 2 (t.logAct (fixedArith p) "end" "Count Complete" [])
-      ∧ RecMon (snaps t.acts) ∧ Ext s0 t ∧ (t.crash = none → nEl t = t.seats ∧ nHop t = 0) := by
+      ∧ Mon t ∧ Ext s0 t ∧ (t.crash = none → nEl t = t.seats ∧ nHop t = 0) := by
   have hS := pow10_pos p
   have hG := C01.wigm_start p o s0 h0 hfresh henough hround
   have hq1 : pow10 p ≤ wigmQuota (fixedArith p) o s0 := by
